@@ -142,7 +142,7 @@ func evGenThr(g *sim.Rng) evThr {
 		switch x := g.Intn(20); {
 		case x < 5: // default lower = threshold - 2
 		case x < 19:
-			t.MemLower = evP64(*t.MemThr - g.PickI64(1, 5, 10, 20, 30))
+			t.MemLower = evP64(*t.MemThr - g.PickI64(1, 2, 3, 5, 5, 10, 20))
 		default:
 			t.MemLower = evP64(*t.MemThr + g.PickI64(0, 5)) // invalid: lower >= threshold
 		}
@@ -152,7 +152,7 @@ func evGenThr(g *sim.Rng) evThr {
 		switch x := g.Intn(20); {
 		case x < 1:
 		case x < 19:
-			t.AllocLower = evP64(*t.AllocThr - g.PickI64(1, 5, 10, 30))
+			t.AllocLower = evP64(*t.AllocThr - g.PickI64(1, 2, 5, 10, 20))
 		default:
 			t.AllocLower = evP64(*t.AllocThr)
 		}
@@ -215,9 +215,9 @@ func evGenPod(g *sim.Rng, name string, capMi int64) evPod {
 	case x < 32:
 		p.Policy = evPS(g.Pick("BEMemoryEvict", "{}", ""))
 	}
-	p.Req = capMi * g.PickI64(0, 0, 1, 2, 5, 5, 10, 20) / 100
+	p.Req = capMi * g.PickI64(0, 1, 2, 3, 5, 5, 8, 10) / 100
 	p.Native = g.Bool(0.06)
-	p.Used = capMi * g.PickI64(0, 1, 1, 2, 2, 5, 5, 10, 15) / 200
+	p.Used = capMi * g.PickI64(0, 1, 2, 3, 4, 5, 6, 8, 10, 15) / 100
 	switch x := g.Intn(100); {
 	case x < 7:
 		p.Phase, p.Used = "Pending", 0
@@ -279,7 +279,7 @@ func (evEngine) Generate(p *sim.Plan, g *sim.Rng) {
 	if cfg.Thr.MemThr != nil {
 		thr = *cfg.Thr.MemThr
 	}
-	want := cfg.CapMi * (thr + g.PickI64(-10, -3, 0, 1, 3, 5, 10, 15)) / 100
+	want := cfg.CapMi * (thr + g.PickI64(-8, -2, 0, 0, 1, 2, 3, 5, 8, 12)) / 100
 	cfg.SysUsed = want - total
 	if cfg.SysUsed < 0 {
 		cfg.SysUsed = 0
@@ -321,9 +321,9 @@ func (evEngine) Generate(p *sim.Plan, g *sim.Rng) {
 			ticks += k
 			ops = append(ops, evOp{K: "tick", N: k})
 		case x < 60:
-			ops = append(ops, evOp{K: "usage", Pod: names[g.Intn(len(names))], V: cfg.CapMi * g.PickI64(0, 1, 2, 5, 10, 15, 25, 40) / 200})
+			ops = append(ops, evOp{K: "usage", Pod: names[g.Intn(len(names))], V: cfg.CapMi * g.PickI64(0, 1, 2, 3, 5, 8, 10, 15, 20) / 100})
 		case x < 68:
-			d := cfg.CapMi * g.PickI64(-10, -5, -2, 2, 5, 10, 20) / 100
+			d := cfg.CapMi * g.PickI64(-10, -5, -2, 1, 2, 3, 5, 10) / 100
 			ops = append(ops, evOp{K: "sys", V: d})
 		case x < 74:
 			added++
@@ -511,6 +511,8 @@ type evMPod struct {
 	// eviction knowledge of the agent (since its last restart)
 	acked bool
 	ackAt time.Time
+	// history of this pod (probes only)
+	everAcked, lostAck, ackedBeforeRestart bool
 
 	// collector
 	hasSample bool
@@ -547,51 +549,59 @@ type evSim struct {
 	lastCollect time.Time
 	stallLeft   int
 
-	cur   *evCall
-	calls []*evCall
-	round int
+	cur      *evCall
+	calls    []*evCall
+	round    int
+	classes  []string
+	deferred *evDeferred
+	// time of the last round in which an eviction was newly acknowledged (this agent instance)
+	lastEvict time.Time
 }
 
-func evClassOf(p *evPod) string {
-	pr := p.Prio
-	switch {
-	case pr >= 9000 && pr <= 9999:
+// evDeferred is the first violation of a run that belongs to a recorded finding (oracle + history class): it is
+// reported when the run ends, unless a violation outside the recorded findings is met first.
+type evDeferred struct {
+	oracle, detail, msg string
+	classes             []string
+}
+
+// evClassOf / evPrioOf: the koordinator priority class and priority value of the pod as the API package defines them
+// (spec.priority, else the default of the class derived from the priority-class label / the QoS class).
+func evClassOf(pod *corev1.Pod) string {
+	switch apiext.GetPodPriorityClassWithDefault(pod) {
+	case apiext.PriorityProd:
 		return "prod"
-	case pr >= 7000 && pr <= 7999:
+	case apiext.PriorityMid:
 		return "mid"
-	case pr >= 5000 && pr <= 5999:
+	case apiext.PriorityBatch:
 		return "batch"
-	case pr >= 3000 && pr <= 3999:
+	case apiext.PriorityFree:
 		return "free"
-	}
-	if pr != 0 {
-		return "none"
-	}
-	switch p.QoS {
-	case "BE":
-		return "batch"
-	case "LS", "LSR", "LSE", "SYSTEM":
-		return "prod"
 	}
 	return "none"
 }
 
-// evPrioOf is the koordinator priority of the pod: its spec.priority, or the default of its class when that is 0.
-func evPrioOf(p *evPod) int32 {
-	if p.Prio != 0 {
-		return p.Prio
-	}
-	switch evClassOf(p) {
-	case "prod":
-		return 9500
-	case "mid":
-		return 7500
-	case "batch":
-		return 5500
-	case "free":
-		return 3500
+func evPrioOf(pod *corev1.Pod) int32 {
+	if p := apiext.GetPodPriorityValueWithDefault(pod); p != nil {
+		return *p
 	}
 	return 0
+}
+
+// evSpecClass: the class the pod's creator had in mind when naming the requested resource (band of spec.priority,
+// else BE -> batch); only used to build the pod object.
+func evSpecClass(p *evPod) string {
+	pr := p.Prio
+	switch {
+	case pr >= 7000 && pr <= 7999:
+		return "mid"
+	case pr >= 5000 && pr <= 5999:
+		return "batch"
+	}
+	if pr == 0 && p.QoS == "BE" {
+		return "batch"
+	}
+	return "none"
 }
 
 func evResOfClass(class string) corev1.ResourceName {
@@ -651,7 +661,7 @@ func (m *evMPod) build(now time.Time) {
 	if p.Policy != nil {
 		an[apiext.AnnotationPodEvictPolicy] = *p.Policy
 	}
-	res := evResOfClass(evClassOf(p))
+	res := evResOfClass(evSpecClass(p))
 	if p.Native {
 		res = corev1.ResourceMemory
 	}
@@ -786,8 +796,12 @@ func (s *evSim) startAgent() {
 		s.r.HarnessFail("memory evictor reports not enabled with features %v", s.cfg.Features)
 	}
 	s.agent = m
+	s.lastEvict = time.Time{}
 	for _, n := range s.order {
-		s.pods[n].acked = false
+		if p := s.pods[n]; p.acked {
+			p.acked = false
+			p.ackedBeforeRestart = true
+		}
 	}
 }
 
@@ -1022,10 +1036,10 @@ func (s *evSim) view(now time.Time) map[string]*evView {
 		if !m.present {
 			continue
 		}
-		v := &evView{m: m, spec: m.spec, class: evClassOf(&m.spec), prio: evPrioOf(&m.spec), evprio: evEvPrio(&m.spec), active: s.active(m)}
+		v := &evView{m: m, spec: m.spec, class: evClassOf(m.obj), prio: evPrioOf(m.obj), evprio: evEvPrio(&m.spec), active: s.active(m)}
 		v.reqRes = evResOfClass(v.class)
-		if !m.spec.Native || v.reqRes == corev1.ResourceMemory {
-			v.req = m.spec.Req * evMi
+		if q, ok := m.obj.Spec.Containers[0].Resources.Requests[v.reqRes]; ok {
+			v.req = q.Value()
 		}
 		if m.hasSample && !m.sampleAt.Before(now.Add(-win)) {
 			v.fresh, v.usedLo, v.usedHi = true, m.sampleV, m.sampleV
@@ -1186,30 +1200,41 @@ func (s *evSim) doRound() {
 	s.refreshPodList(s.cfg.Shuffle)
 	views := s.view(now)
 	s.calls = nil
-	cooling := now.Before(s.agent.lastEvictTime.Add(s.agent.evictCoolingInterval))
+	// cooling as the recorded history implies it (not the agent's own field)
+	cooling := !s.lastEvict.IsZero() && now.Before(s.lastEvict.Add(time.Duration(s.cfg.CoolS)*time.Second))
 
 	s.agent.memoryEvict() // the real round
 
 	r.OpDone()
-	if len(s.calls) == 0 {
-		if cooling {
-			r.Probe("round-in-cooling")
-		}
-		r.Event("round %d no-evict", s.round)
+	if len(s.calls) == 0 && cooling {
+		r.Probe("round-in-cooling")
+		r.Event("round %d cooling", s.round)
 		return
 	}
 	if cooling {
-		r.Probe("evict-while-model-says-cooling")
+		r.Probe("evict-while-history-says-cooling")
 	}
 	s.refreshPodList(false)
 	tasks := s.peekTasks()
+	if len(s.calls) == 0 && len(tasks) == 0 {
+		r.Event("round %d no-pressure", s.round)
+		return
+	}
 	s.checkRound(now, views, tasks)
 	// what the agent now knows
 	for _, c := range s.calls {
+		m := s.pods[c.pod]
+		if m == nil {
+			continue
+		}
 		if c.ret && c.api && c.outcome == "ok" {
-			if m := s.pods[c.pod]; m != nil && !views[c.pod].pendCert {
-				m.acked, m.ackAt = true, now
+			if !views[c.pod].pendCert {
+				m.acked, m.ackAt, m.everAcked = true, now, true
 			}
+			s.lastEvict = now
+		}
+		if c.outcome == "err-after" {
+			m.lostAck = true
 		}
 	}
 }
@@ -1217,6 +1242,10 @@ func (s *evSim) doRound() {
 func (s *evSim) checkRound(now time.Time, views map[string]*evView, tasks []*evTask) {
 	r := s.r
 	r.OracleEval()
+	s.classes = s.classify(views, tasks)
+	for _, c := range s.classes {
+		r.Probe("class:" + c)
+	}
 	byF := map[string]*evTask{}
 	var tdesc []string
 	for _, t := range tasks {
@@ -1256,6 +1285,9 @@ func (s *evSim) checkRound(now time.Time, views map[string]*evView, tasks []*evT
 	if npend > 0 {
 		r.Probe("round-with-pending-release")
 	}
+	if len(s.calls) == 0 {
+		r.Probe("pressure-but-no-evict-call")
+	}
 	shortLo := func(t *evTask) []corev1.ResourceName { // dimensions that may still be short
 		var out []corev1.ResourceName
 		for _, rn := range evSortedRes(t.target) {
@@ -1271,29 +1303,38 @@ func (s *evSim) checkRound(now time.Time, views map[string]*evView, tasks []*evT
 	for i, c := range s.calls {
 		v := views[c.pod]
 		if v == nil {
-			r.Fail("victim-not-on-node", "", "%s\ncall #%d evicts %s which was not on the node when the round started", hist, i, c.pod)
+			s.fail("victim-not-on-node", "", "%s\ncall #%d evicts %s which was not on the node when the round started", hist, i, c.pod)
 		}
 		t := byF[c.feature]
 		kind := evKind(c.feature)
 		if t == nil {
-			r.Fail("evict-without-target", kind, "%s\ncall #%d evicts %s on behalf of %q which has no release target in this round", hist, i, c.pod, c.feature)
+			s.fail("evict-without-target", kind, "%s\ncall #%d evicts %s on behalf of %q which has no release target in this round", hist, i, c.pod, c.feature)
 		}
 		// 1. eligibility
 		if !s.allowed(v, c.feature) {
-			r.Fail("ineligible-victim", kind, "%s\ncall #%d: %s evicts %s (qos=%q priority=%d eviction-enabled=%q policy=%v): not allowed by the policy (thresholds %s)",
+			s.fail("ineligible-victim", kind, "%s\ncall #%d: %s evicts %s (qos=%q priority=%d eviction-enabled=%q policy=%v): not allowed by the policy (thresholds %s)",
 				hist, i, c.feature, c.pod, v.spec.QoS, v.prio, v.spec.Enabled, evStr(v.spec.Policy), s.thrString())
 		}
 		// 2. twice
+		switch {
+		case v.pendCert:
+		case v.m.acked:
+			r.Probe("re-evict-after-ttl")
+		case v.m.ackedBeforeRestart:
+			r.Probe("re-evict-after-restart")
+		case v.m.lostAck:
+			r.Probe("re-evict-after-lost-ack")
+		}
 		if v.pendCert {
-			r.Fail("evicted-twice", kind, "%s\ncall #%d: %s evicts %s again, %v after its acknowledged eviction (remembered for %v, no restart since)", hist, i, c.feature, c.pod, now.Sub(v.m.ackAt), evTTL)
+			s.fail("evicted-twice", kind, "%s\ncall #%d: %s evicts %s again, %v after its acknowledged eviction (remembered for %v, no restart since)", hist, i, c.feature, c.pod, now.Sub(v.m.ackAt), evTTL)
 		}
 		if attempted[c.pod] && succeeded[c.pod] {
-			r.Fail("evicted-twice", kind+"/same-round", "%s\ncall #%d: %s evicts %s which was already evicted in this round", hist, i, c.feature, c.pod)
+			s.fail("evicted-twice", kind+"/same-round", "%s\ncall #%d: %s evicts %s which was already evicted in this round", hist, i, c.feature, c.pod)
 		}
 		// 3. target already met?
 		short := shortLo(t)
 		if len(short) == 0 {
-			r.Fail("evict-after-target-met", kind, "%s\ncall #%d: %s evicts %s although the release accumulated so far (victims of this round + pods already evicted and still terminating) covers its target: accumulated[%s]=%v",
+			s.fail("evict-after-target-met", kind, "%s\ncall #%d: %s evicts %s although the release accumulated so far (victims of this round + pods already evicted and still terminating) covers its target: accumulated[%s]=%v",
 				hist, i, c.feature, c.pod, t.typ, evAccStr(lo[t.typ]))
 		}
 		// 4. frees nothing of what is still short
@@ -1303,14 +1344,14 @@ func (s *evSim) checkRound(now time.Time, views map[string]*evView, tasks []*evT
 				useful = true
 			}
 		}
-		if !useful {
-			r.Fail("useless-victim", kind, "%s\ncall #%d: %s evicts %s (class %s, request %d of %s, usage<=%d) which frees nothing of what is still short (%v of %s)",
+		if !useful && len(short) > 0 {
+			s.fail("useless-victim", kind, "%s\ncall #%d: %s evicts %s (class %s, request %d of %s, usage<=%d) which frees nothing of what is still short (%v of %s)",
 				hist, i, c.feature, c.pod, v.class, v.req, v.reqRes, v.usedHi, short, t.typ)
 		}
 		// 5. published order
 		for _, q := range perTask[c.feature] {
 			if q != v && evMustPrecede(v, q, t.typ) {
-				r.Fail("order", kind, "%s\ncall #%d: %s evicts %s after %s although the published order puts it first (%s vs %s)", hist, i, c.feature, c.pod, q.spec.Name, evOrd(v), evOrd(q))
+				s.fail("order", kind, "%s\ncall #%d: %s evicts %s after %s although the published order puts it first (%s vs %s)", hist, i, c.feature, c.pod, q.spec.Name, evOrd(v), evOrd(q))
 			}
 		}
 		for _, n := range s.order {
@@ -1318,8 +1359,14 @@ func (s *evSim) checkRound(now time.Time, views map[string]*evView, tasks []*evT
 			if q == nil || q == v || attempted[n] || q.pendPoss || s.candidate(q, c.feature) < 2 {
 				continue
 			}
-			if evMustPrecede(q, v, t.typ) {
-				r.Fail("skipped-candidate", kind, "%s\ncall #%d: %s evicts %s but never tried %s which the published order puts first (%s vs %s) and which is neither evicted nor failing",
+			qUseful := false
+			for _, rn := range short {
+				if q.releaseHi(t.typ, rn) > 0 {
+					qUseful = true
+				}
+			}
+			if qUseful && evMustPrecede(q, v, t.typ) {
+				s.fail("skipped-candidate", kind, "%s\ncall #%d: %s evicts %s but never tried %s which the published order puts first (%s vs %s) and which is neither evicted nor failing",
 					hist, i, c.feature, c.pod, n, evOrd(q), evOrd(v))
 			}
 		}
@@ -1328,17 +1375,17 @@ func (s *evSim) checkRound(now time.Time, views map[string]*evView, tasks []*evT
 		if c.ret {
 			if !c.api {
 				// the executor answered "evicted" without an API request although the model does not know the pod as evicted
-				r.Fail("success-without-request", kind, "%s\ncall #%d: Evict(%s) returned success but no eviction request reached the API", hist, i, c.pod)
+				s.fail("success-without-request", kind, "%s\ncall #%d: Evict(%s) returned success but no eviction request reached the API", hist, i, c.pod)
 			}
 			if c.outcome != "ok" {
-				r.Fail("failed-eviction-reported-as-success", kind, "%s\ncall #%d: Evict(%s) returned success although the API answered %s", hist, i, c.pod, c.outcome)
+				s.fail("failed-eviction-reported-as-success", kind, "%s\ncall #%d: Evict(%s) returned success although the API answered %s", hist, i, c.pod, c.outcome)
 			}
 			succeeded[c.pod] = true
 			v.addRelease(lo, hi)
 		} else {
 			r.Probe("evict-call-failed:" + c.outcome)
 			if c.outcome == "ok" {
-				r.Fail("successful-eviction-reported-as-failure", kind, "%s\ncall #%d: Evict(%s) returned failure although the API accepted the eviction", hist, i, c.pod)
+				s.fail("successful-eviction-reported-as-failure", kind, "%s\ncall #%d: Evict(%s) returned failure although the API accepted the eviction", hist, i, c.pod)
 			}
 		}
 	}
@@ -1351,6 +1398,7 @@ func (s *evSim) checkRound(now time.Time, views map[string]*evView, tasks []*evT
 			}
 		}
 		if len(short) == 0 {
+			r.Probe("round-ends-with-target-covered")
 			continue
 		}
 		r.Probe("round-ends-short")
@@ -1368,10 +1416,139 @@ func (s *evSim) checkRound(now time.Time, views map[string]*evView, tasks []*evT
 			if !useful {
 				continue
 			}
-			r.Fail("stops-early", evKind(t.feature), "%s\nthe round ends with %s short of its target (accumulated[%s]=%v, short in %v) although candidate %s (%s) was never tried",
+			s.fail("stops-early", evKind(t.feature), "%s\nthe round ends with %s short of its target (accumulated[%s]=%v, short in %v) although candidate %s (%s) was never tried",
 				hist, t.feature, t.typ, evAccStr(hi[t.typ]), short, n, evOrd(q))
 		}
 	}
+}
+
+// ---------------------------------------------------------------- history classes of recorded findings
+
+const (
+	// a best-effort task whose candidates carry different eviction-priority annotations
+	clsBEEvPrio = "be-candidates-differ-in-eviction-priority"
+	// a task one of whose candidates frees nothing in (one of) the dimension(s) of the task's target
+	clsFreesNothing = "candidate-frees-nothing-in-a-target-dimension"
+	// a pod already evicted and still terminating contributes to a task's target but the task meets a candidate that
+	// is not evicted before it meets that pod (or never meets it: the pod is not one of the task's candidates)
+	clsPendingBehind = "pending-release-behind-candidate"
+	// a used-memory target while a priority-threshold task (MemoryEvict / MemoryAllocatableEvict) has candidates with usage
+	clsTimes1000 = "usage-counted-times-1000"
+)
+
+// classify names the history classes (conditions on the round's inputs, not on what the code did) for which a
+// genuine defect is recorded in /verif/known_findings.jsonl. They are attached to a violation found in this round only.
+func (s *evSim) classify(views map[string]*evView, tasks []*evTask) []string {
+	var out []string
+	var vs []*evView
+	for _, n := range s.order {
+		if v := views[n]; v != nil {
+			vs = append(vs, v)
+		}
+	}
+	hasUsedTarget := false
+	for _, t := range tasks {
+		if t.typ == tUsed {
+			hasUsedTarget = true
+		}
+	}
+	beEv, nothing, behind, times := false, false, false, false
+	for _, t := range tasks {
+		var cands []*evView
+		for _, v := range vs {
+			if s.candidate(v, t.feature) >= 1 {
+				cands = append(cands, v)
+			}
+		}
+		for _, v := range cands {
+			if t.feature == fBE && v.evprio != cands[0].evprio {
+				beEv = true
+			}
+			for _, rn := range evSortedRes(t.target) {
+				if v.releaseHi(t.typ, rn) == 0 {
+					nothing = true
+				}
+			}
+			if t.feature != fBE && hasUsedTarget && v.usedHi > 0 {
+				times = true
+			}
+		}
+		for _, q := range vs {
+			if !q.pendCert {
+				continue
+			}
+			contributes := false
+			for _, rn := range evSortedRes(t.target) {
+				if q.releaseHi(t.typ, rn) > 0 {
+					contributes = true
+				}
+			}
+			if !contributes {
+				continue
+			}
+			qIsCand := s.candidate(q, t.feature) >= 2 // certain to be met by the task
+			for _, p := range cands {
+				if p == q || p.pendPoss {
+					continue
+				}
+				if !qIsCand || !evMustPrecede(q, p, t.typ) {
+					behind = true
+				}
+			}
+		}
+	}
+	if beEv {
+		out = append(out, clsBEEvPrio)
+	}
+	if nothing {
+		out = append(out, clsFreesNothing)
+	}
+	if behind {
+		out = append(out, clsPendingBehind)
+	}
+	if times {
+		out = append(out, clsTimes1000)
+	}
+	return out
+}
+
+// evRecorded: the history class under which a violation of this oracle is a recorded finding ("" = none).
+func evRecorded(oracle, detail string) string {
+	switch oracle {
+	case "stops-early":
+		return clsTimes1000
+	case "useless-victim":
+		return clsFreesNothing
+	case "evict-after-target-met":
+		return clsPendingBehind
+	case "skipped-candidate", "order":
+		if strings.HasPrefix(detail, "be") {
+			return clsBEEvPrio
+		}
+	}
+	return ""
+}
+
+// fail reports a violation found in the current round, tagged with the round's history classes. A violation that
+// belongs to a recorded finding does not end the run at once (the later rounds would never be explored: half of all
+// runs meet one in their first evicting round); it is kept and reported at the end of the run, unless a violation
+// outside the recorded findings is met first.
+func (s *evSim) fail(oracle, detail, format string, args ...any) {
+	if cls := evRecorded(oracle, detail); cls != "" {
+		for _, c := range s.classes {
+			if c == cls {
+				if s.deferred == nil {
+					s.deferred = &evDeferred{oracle: oracle, detail: detail, msg: fmt.Sprintf(format, args...), classes: append([]string(nil), s.classes...)}
+				}
+				s.r.Probe("recorded-finding-met:" + oracle)
+				return
+			}
+		}
+	}
+	for _, c := range s.classes {
+		s.r.Tag(c)
+	}
+	s.r.Fail(oracle, detail, format, args...)
 }
 
 func evStr(p *string) string {
@@ -1567,5 +1744,11 @@ func (evEngine) Execute(r *sim.Run) {
 			continue
 		}
 		r.OpDone()
+	}
+	if d := s.deferred; d != nil {
+		for _, c := range d.classes {
+			r.Tag(c)
+		}
+		r.Fail(d.oracle, d.detail, "%s", d.msg)
 	}
 }
